@@ -197,6 +197,8 @@ def run_family(ctx, name: str, cases: list) -> dict:
     traces = []
     findings = []
     kept = []
+    # every third case runs with the library's debug-logging paths switched on
+    cases = [(dict(cfg, debug=True) if i % 3 == 2 else cfg, sch) for i, (cfg, sch) in enumerate(cases)]
     for i, (cfg, sch) in enumerate(cases):
         try:
             with watchdog.limit(90, "schedule"):
